@@ -8,6 +8,7 @@ CONSTANTS
   MaxReq = 0
   NForeign = 0
   CJ = FALSE
+  NTraces = @@NTRACES@@
 INIT TInit
 NEXT TNext
 INVARIANTS
@@ -18,4 +19,5 @@ INVARIANTS
   I_CanJoin I_CanJoinEnabled I_Constructor I_PartitionNoPanic
   I_PartitionTokens I_PartitionsDisjoint I_AllDistinct I_SpreadOwnReserve
 PROPERTIES A_NeverShort
+ALIAS TraceAlias
 CHECK_DEADLOCK TRUE
